@@ -1,5 +1,6 @@
 import Pysmi.Lemmas.Store
 import Pysmi.Props.C09
+import Pysmi.Model.Borrower
 /-!
 # C19 — borrowing happens only for modules that cannot be compiled, and verbatim
 
@@ -169,3 +170,36 @@ example : borrowLoop 3 true
     (some (3, 5, 2001), [.borrow 0 3 true, .borrow 1 3 true]) := by decide
 
 end Pysmi.Compile
+
+namespace Pysmi.Borrower
+
+/-- **C19_flavour**: a borrower delivers only when the request's with-texts flag (absent, None and
+False all mean "without texts") equals its own flavour, and what it delivers is exactly what its
+reader holds under one of the borrower's extensions. -/
+theorem C19_flavour {α} (flavour : Bool) (ownExts : List String) (reader : List String → Option α)
+    (g : OptVal) (optExts : Option (List String)) (a : α)
+    (h : getData flavour ownExts reader g optExts = .ok a) :
+    truthy g = flavour ∧ reader (optExts.getD ownExts) = some a := by
+  unfold getData at h
+  split at h
+  · cases h
+  · rename_i hf
+    split at h
+    · rename_i a' hr
+      injection h with h; subst h
+      refine ⟨?_, hr⟩
+      cases hg : truthy g <;> cases flavour <;> simp_all
+    · cases h
+
+/-- … and a matching borrower whose reader holds the file does deliver it. -/
+theorem C19_flavour_complete {α} (flavour : Bool) (ownExts : List String) (reader : List String → Option α)
+    (g : OptVal) (optExts : Option (List String)) (a : α)
+    (hf : truthy g = flavour) (hr : reader (optExts.getD ownExts) = some a) :
+    getData flavour ownExts reader g optExts = .ok a := by
+  unfold getData
+  simp [hf, hr]
+
+example : getData true [".py"] (fun _ => some 7) .none none = (.notFound : Ans Nat) := by decide
+example : getData false [".py"] (fun _ => some 7) .absent none = .ok 7 := by decide
+
+end Pysmi.Borrower
